@@ -217,3 +217,215 @@ Proof.
       by (rewrite <- !app_assoc; reflexivity).
     rewrite cut_app by assumption. rewrite resolve_fields by assumption. reflexivity.
 Qed.
+
+(** ---- the list entry of a key, posted back ---- *)
+Lemma str_eqb_eq a b : str_eqb a b = true -> a = b.
+Proof. destruct (str_eqb_spec a b); [auto|discriminate]. Qed.
+Lemma str_eqb_neq a b : a <> b -> str_eqb a b = false.
+Proof. destruct (str_eqb_spec a b); [contradiction|reflexivity]. Qed.
+
+Lemma get_app_type_prefix_lower l : lower l = l -> l <> [] ->
+  release_prefix fixed_kflags (get_app_type (get_app_type_prefix l)) = get_app_type_prefix l.
+Proof.
+  intros Hl Hne. unfold get_app_type_prefix. rewrite Hl.
+  destruct (str_eqb l (L "statefulset") || str_eqb l (L "statefulsets")) eqn:E1; [reflexivity|].
+  destruct (str_eqb l (L "replicaset") || str_eqb l (L "deployment")) eqn:E2; [reflexivity|].
+  unfold get_app_type.
+  destruct (str_eqb (l ++ [us]) dp_pfx) eqn:Ed; [apply str_eqb_eq in Ed; rewrite Ed; reflexivity|].
+  destruct (str_eqb (l ++ [us]) sts_pfx) eqn:Es; [apply str_eqb_eq in Es; rewrite Es; reflexivity|].
+  rewrite removelast_last. unfold release_prefix. cbn [fixed_kflags f5_omitted_is_sts f6_null_exact].
+  rewrite (is_empty_false l Hne). cbn [andb].
+  rewrite (str_eqb_neq l noref_app) by (rewrite <- Hl; apply lower_not_null).
+  unfold get_app_type_prefix. rewrite Hl, E1, E2. reflexivity.
+Qed.
+
+Lemma type_roundtrip ty : fk_type ty -> release_prefix fixed_kflags (get_app_type ty) = ty.
+Proof.
+  intros H. destruct H as [| | |kind Hk]; try reflexivity.
+  assert (get_app_type_prefix kind = get_app_type_prefix (lower kind)) as E
+    by (unfold get_app_type_prefix; rewrite lower_idem; reflexivity).
+  rewrite E. apply get_app_type_prefix_lower; [apply lower_idem|apply lower_nonempty; assumption].
+Qed.
+
+(** the three kinds of keys IPAM stores for a pod: the pod's key, its pool prefix, its app prefix *)
+Definition stored_keys (k : keyobj) : list str := [ko_key k; pool_prefix k; pool_app_prefix k].
+
+Lemma resolve_empty : resolve_pod_key [] = ([], [], [], []).
+Proof. reflexivity. Qed.
+
+Lemma convert_pool_key pool t ns ap pd :
+  pool <> [] -> free us pool -> free us t -> free us ns -> free us ap -> free us pd ->
+  convert (pool_pfx ++ pool ++ us :: (t ++ [us]) ++ ns ++ us :: ap ++ us :: pd) =
+  {| e_ns := ns; e_app := ap; e_pod := pd; e_pool := pool; e_type := get_app_type (t ++ [us]) |}.
+Proof.
+  intros Hp Fp Ft Fn Fa Fd. unfold convert, parse_key. rewrite has_prefix_app.
+  change (skipn 6 (pool_pfx ++ ?x)) with x. rewrite cut_app by assumption.
+  rewrite resolve_fields by assumption. reflexivity.
+Qed.
+
+Lemma convert_plain_key t n ns' ap pd :
+  free us t -> n <> us -> free us (n :: ns') -> free us ap -> free us pd ->
+  convert ((t ++ [us]) ++ (n :: ns') ++ us :: ap ++ us :: pd) =
+  {| e_ns := n :: ns'; e_app := ap; e_pod := pd; e_pool := []; e_type := get_app_type (t ++ [us]) |}.
+Proof.
+  intros Ft Hn Fn Fa Fd. unfold convert, parse_key.
+  assert (has_prefix pool_pfx ((t ++ [us]) ++ (n :: ns') ++ us :: ap ++ us :: pd) = false) as E.
+  { replace ((t ++ [us]) ++ (n :: ns') ++ us :: ap ++ us :: pd)
+      with (t ++ us :: n :: (ns' ++ us :: ap ++ us :: pd)) by (rewrite <- !app_assoc; reflexivity).
+    apply no_pool_prefix; assumption. }
+  rewrite E. rewrite resolve_fields by assumption. reflexivity.
+Qed.
+
+Theorem list_release_roundtrip_l p k :
+  format_key p = Some k -> name_ok (pd_ns p) -> name_ok (pd_name p) -> owners_ok p ->
+  kind_free p -> kind_nonempty p -> pool_ok p ->
+  forall key, In key (stored_keys k) -> release_key fixed_kflags (convert key) = key.
+Proof.
+  intros F Nn Np Oo Kf Kn Pf key Hin.
+  destruct (format_key_shape _ _ F Oo) as [Hn [Hp [Hpool [Ha [Hk [[t [Ht Hft]] Hty]]]]]].
+  specialize (Hft Kf). specialize (Hty Kn). apply type_roundtrip in Hty.
+  destruct k as [kk ty ns ap pd pool]. cbn in *. subst ns pd pool.
+  rewrite gen_key_app in Hk by apply Ha. subst kk.
+  destruct Nn as [Nn1 Nn2], Np as [Np1 Np2], Ha as [Ha1 Ha2]. unfold pool_ok in Pf.
+  assert (free us ([] : str)) as Fnil by apply free_nil.
+  unfold pool_prefix, pool_app_prefix, pool_part in *. cbn [ko_pool ko_type ko_ns ko_app ko_pod] in *.
+  destruct (pd_ns p) as [|n ns'] eqn:Ens; [congruence|].
+  assert (n <> us) as Hnus by (intros X; apply Nn2; left; auto).
+  destruct (pd_pool p) as [|c pl] eqn:Epool; cbn [is_empty] in *; subst ty.
+  - (* no pool: the pod key, and (twice) the prefix type_ns_app_ *)
+    assert (release_key fixed_kflags (convert ((t ++ [us]) ++ (n :: ns') ++ us :: ap ++ [us])) =
+            (t ++ [us]) ++ (n :: ns') ++ us :: ap ++ [us]) as Epfx.
+    { rewrite (convert_plain_key t n ns' ap []) by assumption.
+      unfold release_key. cbn [e_type e_ns e_app e_pod e_pool]. rewrite Hty, gen_key_app by assumption. reflexivity. }
+    destruct Hin as [<-|[<-|[<-|[]]]]; [|exact Epfx|exact Epfx].
+    rewrite !app_nil_l. rewrite (convert_plain_key t n ns' ap (pd_name p)) by assumption.
+    unfold release_key. cbn [e_type e_ns e_app e_pod e_pool]. rewrite Hty, gen_key_app by assumption. reflexivity.
+  - assert (c :: pl <> []) as Hpne by discriminate.
+    destruct Hin as [<-|[<-|[<-|[]]]].
+    + rewrite <- !app_assoc. cbn [List.app].
+      replace (pool_pfx ++ c :: pl ++ us :: t ++ us :: n :: ns' ++ us :: ap ++ us :: pd_name p)
+        with (pool_pfx ++ (c :: pl) ++ us :: (t ++ [us]) ++ (n :: ns') ++ us :: ap ++ us :: pd_name p)
+        by (rewrite <- !app_assoc; reflexivity).
+      rewrite convert_pool_key by assumption.
+      unfold release_key. cbn [e_type e_ns e_app e_pod e_pool]. rewrite Hty, gen_key_app by assumption.
+      unfold pool_part. cbn [is_empty]. rewrite <- !app_assoc. reflexivity.
+    + (* pool__<pool>_ : all other fields empty, type omitted *)
+      unfold convert, parse_key. rewrite has_prefix_app. change (skipn 6 (pool_pfx ++ ?x)) with x.
+      rewrite cut_app by assumption. reflexivity.
+    + replace (pool_pfx ++ (c :: pl) ++ us :: (t ++ [us]) ++ (n :: ns') ++ us :: ap ++ [us])
+        with (pool_pfx ++ (c :: pl) ++ us :: (t ++ [us]) ++ (n :: ns') ++ us :: ap ++ us :: []) by reflexivity.
+      rewrite convert_pool_key by assumption.
+      unfold release_key. cbn [e_type e_ns e_app e_pod e_pool]. rewrite Hty, gen_key_app by assumption.
+      unfold pool_part. cbn [is_empty]. rewrite <- !app_assoc. reflexivity.
+Qed.
+
+(** "app type omitted means statefulset" *)
+Theorem blank_type_is_statefulset_l e :
+  release_key fixed_kflags (blank_type e) = gen_key sts_pfx (e_ns e) (e_app e) (e_pod e) (e_pool e) /\
+  release_key fixed_kflags (blank_type e) =
+  release_key fixed_kflags {| e_ns := e_ns e; e_app := e_app e; e_pod := e_pod e; e_pool := e_pool e;
+                              e_type := L "statefulset" |}.
+Proof. split; reflexivity. Qed.
+
+(** ---- release exactness ---- *)
+Theorem release_exact_l fl e cur found :
+  api_release fl e cur found = RReleased -> cur = Some (release_key fl e).
+Proof.
+  unfold api_release. destruct (negb (releasable e found)); [discriminate|].
+  destruct cur as [c|].
+  - destruct (str_eqb_spec c (release_key fl e)) as [->|]; [reflexivity|]. destruct (is_empty c); discriminate.
+  - destruct (is_empty _); discriminate.
+Qed.
+
+(** posting the listed entry of pod q's key against an IP currently owned by pod p releases it
+    only if p and q are the same (namespace, app, pod name) *)
+Theorem release_exact_owner_l p kp q kq found :
+  format_key p = Some kp -> name_ok (pd_ns p) -> name_ok (pd_name p) -> owners_ok p ->
+  format_key q = Some kq -> name_ok (pd_ns q) -> name_ok (pd_name q) -> owners_ok q ->
+  kind_free q -> kind_nonempty q -> pool_ok q ->
+  api_release fixed_kflags (convert (ko_key kq)) (Some (ko_key kp)) found = RReleased ->
+  pd_ns p = pd_ns q /\ ko_app kp = ko_app kq /\ pd_name p = pd_name q.
+Proof.
+  intros Fp Np Pp Op Fq Nq Pq Oq Kf Kn Pl R. apply release_exact_l in R. inversion R as [E].
+  rewrite (list_release_roundtrip_l q kq Fq Nq Pq Oq Kf Kn Pl (ko_key kq)) in E by (left; reflexivity).
+  eapply key_injective_l; eassumption.
+Qed.
+
+(** ---- witnesses ---- *)
+Definition pod_k4 : pod :=
+  {| pd_name := L "dp-abc-x"; pd_ns := L "ns1";
+     pd_owners := [{| o_kind := L "ReplicaSet"; o_name := L "dp-abc" |}]; pd_pool := L "my_pool" |}.
+Definition pod_bare : pod := {| pd_name := L "bare-0"; pd_ns := L "ns1"; pd_owners := []; pd_pool := [] |}.
+Definition pod_sts : pod :=
+  {| pd_name := L "sts-0"; pd_ns := L "ns1"; pd_owners := [{| o_kind := L "StatefulSet"; o_name := L "sts" |}];
+     pd_pool := [] |}.
+
+Lemma small_name_ok s : (negb (is_empty s) && negb (contains_char us s))%bool = true -> name_ok s.
+Proof.
+  intros H. apply andb_prop in H. destruct H as [H1 H2]. split.
+  - destruct s; [discriminate|discriminate].
+  - apply contains_char_false. destruct (contains_char us s); [discriminate|reflexivity].
+Qed.
+
+Theorem parse_format_refuted_pool_underscore_l :
+  exists p k, format_key p = Some k /\ name_ok (pd_ns p) /\ name_ok (pd_name p) /\ owners_ok p /\ kind_free p /\
+              ko_key k = L "pool__my_pool_dp_ns1_dp_dp-abc-x" /\ ko_pool k = L "my_pool" /\
+              ko_pool (parse_key (ko_key k)) = L "my" /\ ko_app (parse_key (ko_key k)) = [] /\
+              parse_key (ko_key k) <> k.
+Proof.
+  exists pod_k4. eexists. split; [vm_compute; reflexivity|].
+  split; [apply small_name_ok; reflexivity|]. split; [apply small_name_ok; reflexivity|].
+  split; [repeat constructor; apply small_name_ok; reflexivity|].
+  split; [repeat constructor; apply contains_char_false; reflexivity|].
+  repeat split; try (vm_compute; reflexivity). vm_compute. intros H. discriminate H.
+Qed.
+
+Theorem list_release_refuted_pool_underscore_l :
+  exists p k, format_key p = Some k /\ name_ok (pd_ns p) /\ name_ok (pd_name p) /\ owners_ok p /\
+              release_key fixed_kflags (convert (ko_key k)) = L "pool__my_" /\
+              release_key fixed_kflags (convert (ko_key k)) <> ko_key k.
+Proof.
+  exists pod_k4. eexists. split; [vm_compute; reflexivity|].
+  split; [apply small_name_ok; reflexivity|]. split; [apply small_name_ok; reflexivity|].
+  split; [repeat constructor; apply small_name_ok; reflexivity|].
+  split; [vm_compute; reflexivity|]. vm_compute. intros H. discriminate H.
+Qed.
+
+(** F5 on the pinned commit: the blanked entry of a statefulset pod addresses the key _ns1_sts_sts-0 *)
+Theorem list_release_refuted_omitted_type_l :
+  exists p k, format_key p = Some k /\
+              release_key {| f5_omitted_is_sts := false; f6_null_exact := true |} (blank_type (convert (ko_key k)))
+              = L "_ns1_sts_sts-0" /\
+              gen_key sts_pfx (L "ns1") (L "sts") (L "sts-0") [] = ko_key k /\
+              api_release {| f5_omitted_is_sts := false; f6_null_exact := true |}
+                          (blank_type (convert (ko_key k))) (Some (ko_key k)) false = ROther.
+Proof. exists pod_sts. eexists. split; [vm_compute; reflexivity|]. repeat split; vm_compute; reflexivity. Qed.
+
+(** F6 on the pinned commit: the listed entry of a pod without owner addresses the key null_ns1_NULL_bare-0 *)
+Theorem list_release_refuted_null_type_l :
+  exists p k, format_key p = Some k /\ ko_key k = L "NULL_ns1_NULL_bare-0" /\
+              release_key {| f5_omitted_is_sts := true; f6_null_exact := false |} (convert (ko_key k))
+              = L "null_ns1_NULL_bare-0" /\
+              api_release {| f5_omitted_is_sts := true; f6_null_exact := false |}
+                          (convert (ko_key k)) (Some (ko_key k)) false = ROther.
+Proof. exists pod_bare. eexists. split; [vm_compute; reflexivity|]. repeat split; vm_compute; reflexivity. Qed.
+
+(** the hypotheses of the key theorems are met by a concrete non-trivial pod *)
+Definition pod_example : pod :=
+  {| pd_name := L "dp1234567890dp1234567890dp1234567890dp1234567890dp1234567848p74"; pd_ns := L "kube-system";
+     pd_owners := [{| o_kind := L "ReplicaSet";
+                      o_name := L "dp1234567890dp1234567890dp1234567890dp1234567890dp1234567890dp1-69fd8dbc5c" |}];
+     pd_pool := L "my-pool" |}.
+Lemma example_pod_ok :
+  exists k, format_key pod_example = Some k /\ name_ok (pd_ns pod_example) /\ name_ok (pd_name pod_example) /\
+            owners_ok pod_example /\ kind_free pod_example /\ kind_nonempty pod_example /\ pool_ok pod_example /\
+            ko_app k = L "dp1234567890dp1234567890dp1234567890dp1234567890dp1234567890dp1" /\
+            List.length (ko_key k) = 156%nat.
+Proof.
+  eexists. split; [vm_compute; reflexivity|].
+  split; [apply small_name_ok; reflexivity|]. split; [apply small_name_ok; reflexivity|].
+  split; [repeat constructor; apply small_name_ok; reflexivity|].
+  split; [repeat constructor; apply contains_char_false; reflexivity|].
+  split; [repeat constructor; discriminate|].
+  split; [apply contains_char_false; reflexivity|]. split; vm_compute; reflexivity.
+Qed.
